@@ -16,6 +16,8 @@ EXTENDS MSPQ, TLC
 FreeLeaf(proto, round, kind, leaf, senderIsPrev) ==
   \/ proto = "session" /\ round = 1 /\ kind = "b" /\ leaf = "/Ck"     \* fresh per-party commitment key; enters the common seed
   \/ proto \in {"redist", "redistAnchor"} /\ ~senderIsPrev            \* next-only holders send empty, ignored messages
+  \/ proto = "ecbbot"                                                 \* the base OT has no consistency check: a deviator only spoils its own output
+  \/ proto = "rvole" /\ round # 3                                     \* the multiplier's check (theta, eta, mu) is on Alice's last message only
 Bound(proto, round, kind, leaf, senderIsPrev) == ~FreeLeaf(proto, round, kind, leaf, senderIsPrev)
 
 SeqSet(s) == {s[i] : i \in 1..Len(s)}
@@ -47,6 +49,14 @@ OutputsValid(e) ==
          /\ \A i, j \in done : /\ e.out.by[K(i)].sid = e.out.by[K(j)].sid
                                /\ e.out.by[K(i)].tr = e.out.by[K(j)].tr
                                /\ i # j => e.out.by[K(i)].seeds[K(j)] = e.out.by[K(j)].seeds[K(i)]
+    [] e.out.kind = "ot" ->            \* only claimed when both parties are honest and done
+         (Len(e.out.done) = 2 /\ "recv" \in DOMAIN e.out) =>
+            \A i \in 1..Len(e.out.choices) :
+               /\ e.out.recv[i] = (IF e.out.choices[i] = 0 THEN e.out.s0[i] ELSE e.out.s1[i])
+               /\ e.out.big => \A k \in 1..Len(e.out.s0[i]) : e.out.s0[i][k] # e.out.s1[i][k]
+    [] e.out.kind = "vole" ->
+         (Len(e.out.done) = 2 /\ "c" \in DOMAIN e.out /\ ~e.out.big) =>
+            \A k \in 1..Len(e.out.a) : Add(e.out.c[k], e.out.d[k]) = Mul(e.out.a[k], e.out.b)
     [] OTHER -> FALSE
 
 \* ---- the property, per run ----
